@@ -375,7 +375,7 @@ def run_dictsub(active):
 
 
 def dict_subclasses(ctx: Ctx):
-    a, b = tmap(run_dictsub, [True, False])
+    a, b = run_dictsub(True), run_dictsub(False)      # one after the other: run_inproc works on the global state of inline-snapshot
     ctx.count(("dict-subclasses",), True)
     if a["exc"] or b["exc"] or a["R"] != b["R"]:
         known = (not a["exc"] and not b["exc"] and a["R"] == [True, True, False, True, True, True] and b["R"] == [False, True, True, True, True, True])
